@@ -621,7 +621,11 @@ pub fn valid_request(rng: &mut Rng, extra_addrs: &[u32]) -> (String, J) {
                 J::Arr((0..rng.range(1, 6)).map(|_| J::Arr(vec![num(rng.below(nlibs)), num(pick_addr(rng))])).collect())
             }).collect());
             let job = obj(vec![("memoryMap", mm), ("stacks", stacks)]);
-            let req = if rng.chance(1, 2) { obj(vec![("jobs", J::Arr(vec![job.clone(), job]))]) } else { job };
+            let req = match rng.below(4) {
+                0 => obj(vec![("jobs", J::Arr(vec![job.clone(), job]))]),
+                1 => multi_job_request(rng, extra_addrs),
+                _ => job,
+            };
             ("/symbolicate/v5".to_string(), req)
         }
         1 => {
@@ -741,6 +745,15 @@ pub fn sym_case(rng: &mut Rng) -> Vec<String> {
                     addrs.extend(other.addrs.iter().take(8));
                 }
             }
+            4 => {
+                // entries at the boundaries; the lookups land on them
+                if let Some(mut i) = make_index(&sym.text, 4096) {
+                    let t = tweak_entries(&mut i, sym.text.len() as u64, rng);
+                    addrs.splice(0..0, t);
+                    ops.push(symindex_op(&i));
+                    ops.push(format!("file {} {}", hx(&idx_name), hex(&i)));
+                }
+            }
             _ => {
                 if let Some(mut i) = make_index(&sym.text, 4096) {
                     corrupt_index(&mut i, rng);
@@ -804,6 +817,333 @@ pub fn symindex_ops(rng: &mut Rng, n: usize) -> Vec<String> {
         let total = *rng.pick(&[48usize, 60, 100, 128, 300]);
         ops.push(symindex_op(&synthetic_index(f, total, rng.chance(5, 6))));
     }
+    ops
+}
+
+// ------------------------------------------------------------------------------------------
+// improvement round: entry-level index surgery, deep inline chains, multi-job requests
+
+fn rd32(d: &[u8], o: usize) -> Option<u32> {
+    d.get(o..o + 4).map(|b| u32::from_le_bytes([b[0], b[1], b[2], b[3]]))
+}
+
+fn wr32(d: &mut [u8], o: usize, v: u32) {
+    if let Some(b) = d.get_mut(o..o + 4) {
+        b.copy_from_slice(&v.to_le_bytes());
+    }
+}
+
+fn wr64(d: &mut [u8], o: usize, v: u64) {
+    if let Some(b) = d.get_mut(o..o + 8) {
+        b.copy_from_slice(&v.to_le_bytes());
+    }
+}
+
+/// Per-entry boundary values for a (valid) index over a text of `text_len` bytes: symbol entries
+/// (`kind u32, len u32, offset u64` at `ent_off + 16 j`), FILE / INLINE_ORIGIN entries (`index u32, len u32,
+/// offset u64`), symbol addresses. Returns the addresses whose lookups land on the touched entries.
+pub fn tweak_entries(idx: &mut Vec<u8>, text_len: u64, rng: &mut Rng) -> Vec<u32> {
+    let mut touched = Vec::new();
+    let (Some(fc), Some(fo), Some(ic), Some(io), Some(sc), Some(ao), Some(eo)) =
+        (rd32(idx, 20), rd32(idx, 24), rd32(idx, 28), rd32(idx, 32), rd32(idx, 36), rd32(idx, 40), rd32(idx, 44))
+    else {
+        return touched;
+    };
+    let (fc, fo, ic, io, sc, ao, eo) = (fc as usize, fo as usize, ic as usize, io as usize, sc as usize, ao as usize, eo as usize);
+    let sym_addr = |idx: &[u8], j: usize| rd32(idx, ao + 4 * j).unwrap_or(0);
+    for _ in 0..rng.range(1, 3) {
+        let kind = rng.below(9);
+        if sc == 0 && kind != 5 {
+            continue;
+        }
+        let j = rng.below(sc.max(1) as u64) as usize;
+        let e = eo + 16 * j;
+        let len = rd32(idx, e + 4).unwrap_or(0) as u64;
+        let offsets = [0u64, text_len.wrapping_sub(1), text_len, text_len + 1, text_len.wrapping_sub(len), text_len.wrapping_sub(len).wrapping_add(1),
+            1 << 32, 1 << 63, u64::MAX, (u64::MAX - len).wrapping_add(1), u64::MAX - len, (u64::MAX - len).wrapping_add(2), 0xffff_ffff_ffff_fff0];
+        match kind {
+            0 => wr64(idx, e + 8, *rng.pick(&offsets)),
+            1 => wr32(idx, e + 4, *rng.pick(&[0u32, 1, 2, 0x20, 0x7fff_ffff, 0xffff_ffff, text_len as u32, (text_len as u32).wrapping_add(1)])),
+            2 => wr32(idx, e, *rng.pick(&[0u32, 1, 2, 3, 0xffff_ffff, 0x100])),
+            3 => {
+                // both halves extreme: offset + len around 2^64
+                let l = *rng.pick(&[0x20u32, 1, 0xffff_ffff]);
+                wr32(idx, e + 4, l);
+                wr64(idx, e + 8, (u64::MAX - l as u64).wrapping_add(rng.below(3)));
+            }
+            4 if sc >= 2 => {
+                // two entries share a file offset (the memo tables are keyed by the offset alone)
+                let k = (j + 1 + rng.below(sc as u64 - 1) as usize) % sc;
+                let ek = eo + 16 * k;
+                let off_k = idx.get(ek + 8..ek + 16).map(|b| u64::from_le_bytes(b.try_into().unwrap())).unwrap_or(0);
+                wr64(idx, e + 8, off_k);
+                match rng.below(4) {
+                    0 => wr32(idx, e + 4, (len / 2) as u32),
+                    1 => wr32(idx, e + 4, (len as u32).wrapping_add(7)),
+                    2 => {
+                        let kk = rd32(idx, ek).unwrap_or(0);
+                        wr32(idx, e, kk);
+                    }
+                    _ => {}
+                }
+                let a = sym_addr(idx, k);
+                touched.extend([a, sym_addr(idx, j), a]);
+            }
+            5 => {
+                // FILE / INLINE_ORIGIN entry: index / length / offset
+                let (cnt, off) = if rng.chance(1, 2) { (fc, fo) } else { (ic, io) };
+                if cnt > 0 {
+                    let f = off + 16 * rng.below(cnt as u64) as usize;
+                    match rng.below(3) {
+                        0 => wr64(idx, f + 8, *rng.pick(&offsets)),
+                        1 => wr32(idx, f + 4, *rng.pick(&[0u32, 1, 4, 0xffff_ffff, text_len as u32])),
+                        _ => wr32(idx, f, *rng.pick(&[0u32, 1, 2, 0xffff_ffff, 9])),
+                    }
+                }
+            }
+            6 if sc >= 2 => {
+                // unsorted symbol addresses
+                let k = rng.below(sc as u64) as usize;
+                let (a, b) = (sym_addr(idx, j), sym_addr(idx, k));
+                wr32(idx, ao + 4 * j, b);
+                wr32(idx, ao + 4 * k, a);
+                touched.extend([a, b]);
+            }
+            7 => wr32(idx, ao + 4 * j, *rng.pick(&[0u32, 0xffff_ffff, 0x8000_0000, 0x1000])),
+            _ => {
+                // symbol_count changed by one (the two arrays must stay equally long for the parser)
+                wr32(idx, 36, (sc as u32).wrapping_add(*rng.pick(&[1u32, 0xffff_ffff])));
+            }
+        }
+        let a = sym_addr(idx, j);
+        touched.extend([a, a.wrapping_add(1), a.wrapping_sub(1)]);
+    }
+    touched
+}
+
+/// a `.sym` with inline chains of depth 0..40 over one address, 1..50 ranges per INLINE record, sibling
+/// inlinees per depth, FILE / INLINE_ORIGIN records out of order (and duplicated)
+pub fn gen_deep_sym(rng: &mut Rng, tier: Tier, equal_keys: bool) -> SymFile {
+    let mut lines: Vec<String> = vec![format!("MODULE Linux x86_64 {MODULE_ID} t")];
+    let nfiles = if tier == Tier::Thorough && rng.chance(1, 8) { 1000 } else { rng.range(1, 40) };
+    let norigins = if tier == Tier::Thorough && rng.chance(1, 8) { 1000 } else { rng.range(1, 40) };
+    let mut recs: Vec<String> = (0..nfiles).map(|i| format!("FILE {i} {}", if i % 7 == 0 { ps(rng, PATHS).to_string() } else { format!("src/f{i}.c") })).collect();
+    recs.extend((0..norigins).map(|i| format!("INLINE_ORIGIN {i} inl{i}")));
+    if rng.chance(1, 3) {
+        recs.push(format!("FILE {} dup.c", rng.below(nfiles)));
+        recs.push(format!("INLINE_ORIGIN {} dup", rng.below(norigins)));
+    }
+    rng.shuffle(&mut recs);
+    if rng.chance(1, 2) {
+        lines.extend(recs.drain(..));
+    }
+    let mut addrs: Vec<u32> = vec![0xfff, 0x1000];
+    let base: u64 = 0x1000;
+    let depth = *rng.pick(&[0u64, 1, 2, 3, 5, 8, 15, 16, 17, 31, 32, 40]);
+    let size: u64 = 0x100 + 2 * depth;
+    lines.push(format!("FUNC {base:x} {size:x} 0 outer"));
+    let target = base + depth + rng.below(8);
+    for d in 0..depth {
+        // the range that covers `target` plus up to 49 sibling ranges at this depth
+        let nranges = *rng.pick(&[1u64, 1, 2, 3, 10, 50]);
+        let mut l = format!("INLINE {d} {} {} {}", 100 + d, rng.below(nfiles + 1), rng.below(norigins + 1));
+        let mut pairs: Vec<(u64, u64)> = vec![(base + d, size - 2 * d)];
+        for r in 1..nranges {
+            pairs.push((base + size + 0x10 * r, rng.range(1, 0xf)));
+        }
+        if rng.chance(1, 2) {
+            rng.shuffle(&mut pairs);
+        }
+        for (a, sz) in pairs {
+            l.push_str(&format!(" {a:x} {sz:x}"));
+        }
+        lines.push(l);
+        if equal_keys && rng.chance(1, 6) {
+            // the same (depth, address) again: which of the two survives `sort_unstable_by_key` + binary search is
+            // unspecified, so this is only generated for the exploration operations (`lookup`, `api`)
+            lines.push(format!("INLINE {d} 7 0 0 {:x} {:x}", base + d, rng.range(1, 0x20)));
+        } else if rng.chance(1, 30) {
+            // a later, shorter range at this depth (distinct key): the chain ends here for addresses beyond it
+            lines.push(format!("INLINE {d} 7 0 0 {:x} {:x}", base + d + 1, rng.range(1, 0x120)));
+        }
+    }
+    let mut a = base;
+    while a < base + size {
+        let sz = rng.range(1, 0x40).min(base + size - a);
+        lines.push(format!("{a:x} {sz:x} {} {}", rng.below(900), rng.below(nfiles + 1)));
+        a += sz;
+    }
+    addrs.extend([target as u32, (base + depth) as u32, (base + depth).wrapping_sub(1) as u32, (base + size - depth) as u32, (base + size - 1) as u32, (base + size) as u32,
+        (base + size / 2) as u32, (base + size + 0x10) as u32]);
+    // a second function with sibling inlinees only, and a PUBLIC
+    let b2 = base + size + 0x400;
+    lines.push(format!("FUNC {b2:x} 40 0 second"));
+    lines.push(format!("INLINE 0 1 0 0 {b2:x} 10 {:x} 10", b2 + 0x20));
+    lines.push(format!("INLINE 1 2 0 0 {:x} 4", b2 + 0x22));
+    lines.push(format!("{b2:x} 40 9 0"));
+    lines.push(format!("PUBLIC {:x} 0 pub", b2 + 0x100));
+    addrs.extend([b2 as u32, b2 as u32 + 0x10, b2 as u32 + 0x22, b2 as u32 + 0x30, b2 as u32 + 0x100, b2 as u32 + 0x200]);
+    lines.extend(recs);
+    let mut text = lines.join("\n").into_bytes();
+    text.push(b'\n');
+    SymFile { text, addrs, has_source: false }
+}
+
+/// one `bpmap` operation: a `.sym` text served with a stored index (valid / stale / corrupted / with entries at
+/// the boundaries), lookups on one map (addresses repeated and interleaved: the memo tables)
+pub fn bpmap_op(rng: &mut Rng, tier: Tier) -> Option<String> {
+    let deep = rng.chance(1, 3);
+    let sym = if deep { gen_deep_sym(rng, tier, false) } else { gen_sym(rng) };
+    let mut addrs: Vec<u32> = sym.addrs.clone();
+    let own = make_index(&sym.text, 4096);
+    let mut idx = match rng.below(8) {
+        0 | 1 => own?,
+        2 => {
+            let other = if rng.chance(1, 2) { gen_deep_sym(rng, tier, false) } else { gen_sym(rng) };
+            addrs.extend(other.addrs.iter().take(8));
+            make_index(&other.text, 4096)?
+        }
+        3 => {
+            let mut i = own?;
+            corrupt_index(&mut i, rng);
+            i
+        }
+        _ => {
+            let mut i = own?;
+            let t = tweak_entries(&mut i, sym.text.len() as u64, rng);
+            addrs.splice(0..0, t);
+            i
+        }
+    };
+    if rng.chance(1, 40) {
+        idx.truncate(rng.below(idx.len() as u64 + 1) as usize);
+    }
+    addrs.truncate(if deep { 14 } else { 20 });
+    // repeat some addresses (second answer comes from the memo tables)
+    for _ in 0..rng.below(4) {
+        let a = *rng.pick(&addrs);
+        addrs.push(a);
+    }
+    let mut a: Vec<String> = addrs.iter().map(|a| a.to_string()).collect();
+    // `iter_symbols()` somewhere in between (it fills the same memo tables)
+    if rng.chance(1, 2) {
+        let at = rng.below(a.len() as u64 + 1) as usize;
+        a.insert(at, "iter".to_string());
+    }
+    Some(format!("bpmap {} {} {}", hex(&sym.text), hex(&idx), a.join(" ")))
+}
+
+fn random_breakpad_id(rng: &mut Rng) -> String {
+    format!("{:032X}{:x}", (rng.next_u64() as u128) << 64 | rng.next_u64() as u128, rng.below(16))
+}
+
+/// `/symbolicate/v5` with 2..4 jobs that differ: other memory maps (loading, missing, wrong id, malformed id,
+/// the same library at another index), other lengths, disjoint addresses
+pub fn multi_job_request(rng: &mut Rng, extra_addrs: &[u32]) -> J {
+    let njobs = rng.range(2, 4);
+    let mut jobs = Vec::new();
+    for j in 0..njobs {
+        let nlibs = rng.range(1, 3);
+        let mut mm = Vec::new();
+        let mut pools: Vec<Vec<u32>> = Vec::new();
+        for _ in 0..nlibs {
+            let lib = rng.pick(LIBS);
+            let (name, id) = match rng.below(8) {
+                0 | 1 => ("nope".to_string(), random_breakpad_id(rng)),
+                2 => (lib.debug_name.to_string(), random_breakpad_id(rng)),
+                3 => (lib.debug_name.to_string(), ps(rng, WEIRD_STRINGS).to_string()),
+                _ => (lib.debug_name.to_string(), lib.debug_id.to_string()),
+            };
+            mm.push(J::Arr(vec![st(&name), st(&id)]));
+            let mut pool: Vec<u32> = lib.addrs.iter().map(|a| a.wrapping_add(0x10 * j as u32)).collect();
+            pool.extend(extra_addrs.iter().take(6));
+            pool.extend([0x9999u32 + j as u32, 4448 + j as u32]);
+            pools.push(pool);
+        }
+        let stacks = J::Arr(
+            (0..rng.range(1, 2))
+                .map(|_| {
+                    J::Arr(
+                        (0..rng.range(1, 5))
+                            .map(|_| {
+                                let m = if rng.chance(1, 40) { nlibs } else { rng.below(nlibs) };
+                                let a = *rng.pick(&pools[(m % nlibs) as usize]);
+                                J::Arr(vec![num(m), num(a as u64)])
+                            })
+                            .collect(),
+                    )
+                })
+                .collect(),
+        );
+        jobs.push(obj(vec![("memoryMap", J::Arr(mm)), ("stacks", stacks)]));
+    }
+    obj(vec![("jobs", J::Arr(jobs))])
+}
+
+/// hand-built multi-job bodies: per-job state must not leak into the next job
+fn fixed_multi_job() -> Vec<String> {
+    let ex = format!("[\"example-linux\",\"{MODULE_ID}\"]");
+    let fx = "[\"firefox.pdb\",\"8A913DE821D9DE764C4C44205044422E1\"]";
+    let nope = "[\"nope\",\"AA152DEB2D9B76084C4C44205044422E1\"]";
+    let bad = "[\"example-linux\",\"zz\"]";
+    let job = |mm: &[&str], frames: &[(u32, u32)]| {
+        format!("{{\"memoryMap\":[{}],\"stacks\":[[{}]]}}", mm.join(","), frames.iter().map(|(m, a)| format!("[{m},{a}]")).collect::<Vec<_>>().join(","))
+    };
+    let bodies = [
+        vec![job(&[&ex], &[(0, 4448)]), job(&[nope], &[(0, 39321)])],
+        vec![job(&[nope], &[(0, 39321)]), job(&[&ex], &[(0, 4448)])],
+        vec![job(&[&ex], &[(0, 4448)]), job(&[fx], &[(0, 0x17a20)])],
+        vec![job(&[&ex], &[(0, 4448)]), job(&[bad], &[(0, 4449)]), job(&[&ex, nope], &[(1, 4450), (0, 4451)])],
+        vec![job(&[&ex, fx], &[(0, 4448), (1, 0x17a20)]), job(&[fx, &ex], &[(0, 0x17a21), (1, 4449)]), job(&[], &[]), job(&[nope], &[])],
+        vec![job(&[&ex], &[(0, 4448)]), job(&[&ex], &[(0, 4449), (0, 4448)]), job(&[&ex, &ex], &[(1, 4450), (0, 4451)])],
+        vec![job(&[&ex], &[(0, 4448)]), job(&[nope], &[(1, 0)])],
+    ];
+    bodies.iter().map(|jobs| api_op("/symbolicate/v5", &format!("{{\"jobs\":[{}]}}", jobs.join(",")))).collect()
+}
+
+/// error messages / unknown paths whose JSON text is compared byte for byte with `JT.errorJson`
+pub fn json_text_ops(rng: &mut Rng, n: usize) -> Vec<String> {
+    (0..n)
+        .map(|_| {
+            let mut m = match rng.below(4) {
+                0 => ps(rng, WEIRD_STRINGS).to_string(),
+                1 => ps(rng, ODD_PATHS).to_string(),
+                2 => ps(rng, PATHS).to_string(),
+                _ => String::new(),
+            };
+            for _ in 0..rng.below(6) {
+                let idxs: Vec<usize> = m.char_indices().map(|(i, _)| i).chain(std::iter::once(m.len())).collect();
+                let at = *rng.pick(&idxs);
+                let c = match rng.below(6) {
+                    0 => char::from_u32(rng.below(0x20) as u32).unwrap(),
+                    1 => *rng.pick(&['"', '\\', '/', '\u{7f}', '\u{80}', '\u{2028}', '\u{ffff}', '\u{10ffff}']),
+                    2 => *rng.pick(&['é', '€', '😀']),
+                    _ => char::from_u32(0x20 + rng.below(0x5f) as u32).unwrap(),
+                };
+                m.insert(at, c);
+            }
+            if rng.chance(1, 2) { format!("errjson {}", hx(&m)) } else { format!("badurl {}", hx(&m)) }
+        })
+        .collect()
+}
+
+/// a case around a deep-inline `.sym`: value-for-value lookups (`bpmap`), then the same file through `lookup`
+/// and `/symbolicate/v5`
+pub fn deep_case(rng: &mut Rng, tier: Tier) -> Vec<String> {
+    let equal_keys = rng.chance(1, 3);
+    let sym = gen_deep_sym(rng, tier, equal_keys);
+    let mut ops = Vec::new();
+    let a: Vec<String> = sym.addrs.iter().map(|a| a.to_string()).collect();
+    if !equal_keys {
+        if let Some(i) = make_index(&sym.text, 4096) {
+            ops.push(format!("bpmap {} {} {}", hex(&sym.text), hex(&i), a.join(" ")));
+        }
+    }
+    ops.push(format!("file {} {}", hx("t.sym"), hex(&sym.text)));
+    ops.push(format!("lookup {} {}", hx("t.sym"), a.join(" ")));
+    let stacks = J::Arr(vec![J::Arr(sym.addrs.iter().map(|a| J::Arr(vec![num(0), num(*a as u64)])).collect())]);
+    let req = obj(vec![("memoryMap", J::Arr(vec![J::Arr(vec![st("t"), st(MODULE_ID)])])), ("stacks", stacks)]);
+    ops.push(api_op("/symbolicate/v5", &req.text()));
     ops
 }
 
@@ -923,11 +1263,112 @@ pub fn fixed_cases(tier: Tier) -> Vec<Case> {
         ops.push(format!("debugid {}", hx(s)));
     }
     chunked("paths-depth", ops, 20, &mut out);
+    // (6b) the hand-built error object: every single byte 0..=0x7f as a message and inside a path, multi-byte characters
+    let mut ops = Vec::new();
+    for c in 0u8..=0x7f {
+        let s = (c as char).to_string();
+        ops.push(format!("errjson {}", hx(&s)));
+        ops.push(format!("errjson {}", hx(&format!("a{s}b{s}"))));
+        ops.push(format!("badurl {}", hx(&format!("/{s}x"))));
+    }
+    for s in WEIRD_STRINGS.iter().chain(ODD_PATHS.iter()).chain(["/symbolicate/v5", "/source/v1", "/asm/v1", "\u{80}", "\u{7ff}", "\u{800}", "\u{2028}", "\u{ffff}", "\u{10000}", "\u{10ffff}"].iter()) {
+        ops.push(format!("errjson {}", hx(s)));
+        ops.push(format!("badurl {}", hx(s)));
+    }
+    chunked("json-text", ops, 64, &mut out);
+    // (7) multi-job requests built by hand
+    chunked("multi-job", fixed_multi_job(), 4, &mut out);
+    // (8) `DebugId::from_breakpad` / the request's debugId: a 2/3/4-byte character at every offset of every length
+    let mut ops = Vec::new();
+    for len in 0..=42usize {
+        for ch in ["é", "€", "😀"] {
+            for pos in 0..len {
+                if let Some(s) = id_with_char(len, pos, ch, true) {
+                    ops.push(format!("debugid {}", hx(&s)));
+                    if (30..=36).contains(&len) && ch == "é" {
+                        ops.push(api_op("/asm/v1", &format!("{{\"name\":\"example-linux\",\"debugName\":\"example-linux\",\"debugId\":{},\"startAddress\":\"0x1160\",\"size\":\"0x8\"}}", serde_json::to_string(&s).unwrap())));
+                    }
+                }
+            }
+        }
+    }
+    // plain hex ids of every length, the appendix (age) around u32::MAX and with leading zeros
+    for len in 0..=48usize {
+        for upper in [true, false] {
+            if let Some(s) = id_with_char(len, len, "", upper) {
+                ops.push(format!("debugid {}", hx(&s)));
+            }
+        }
+    }
+    let uuid = "BE4E976C325246EE9D6B7847A670B2A9";
+    for age in ["0", "1", "a", "ffffffff", "100000000", "0ffffffff", "00000000000000000001", "fffffffff", "FFFFFFFF", "7fffffff", "80000000"] {
+        ops.push(format!("debugid {}", hx(&format!("{uuid}{age}"))));
+        ops.push(format!("debugid {}", hx(&format!("{}{age}", uuid.to_lowercase()))));
+    }
+    chunked("debugids", ops, 120, &mut out);
+    // (9) every inline depth 0..40 served value-for-value, a valid index with every symbol entry at every boundary
+    let mut rng = Rng::new(0xC08);
+    for k in 0..(if tier == Tier::Quick { 12 } else { 60 }) {
+        out.push(Case { name: format!("deep-{k}"), ops: deep_case(&mut rng, tier) });
+    }
+    let text = format!("MODULE Linux x86_64 {MODULE_ID} t\nFILE 0 a.c\nINLINE_ORIGIN 0 g\nFUNC 1000 10 0 f\nINLINE 0 3 0 0 1004 4\n1000 10 1 0\nPUBLIC 2000 0 p\nFUNC 3000 10 0 h\n3000 10 2 0\n");
+    if let Some(valid) = make_index(text.as_bytes(), 4096) {
+        let n = text.len() as u64;
+        let eo = rd32(&valid, 44).unwrap_or(0) as usize;
+        let mut ops = Vec::new();
+        for j in 0..3usize {
+            for off in [0u64, n - 1, n, n + 1, 1 << 32, 1 << 63, u64::MAX, u64::MAX - 0x1f, u64::MAX - 0x20, 0xffff_ffff_ffff_fff0] {
+                for len in [None, Some(0u32), Some(1), Some(0x20), Some(0xffff_ffff)] {
+                    let mut i = valid.clone();
+                    wr64(&mut i, eo + 16 * j + 8, off);
+                    if let Some(l) = len {
+                        wr32(&mut i, eo + 16 * j + 4, l);
+                    }
+                    ops.push(format!("bpmap {} {} 4096 4100 8192 12288 12290 4100", hex(text.as_bytes()), hex(&i)));
+                }
+            }
+            for kind in [0u32, 1, 2, 0xffff_ffff] {
+                let mut i = valid.clone();
+                wr32(&mut i, eo + 16 * j, kind);
+                ops.push(format!("bpmap {} {} 4096 4100 8192 12288 12290 4100", hex(text.as_bytes()), hex(&i)));
+            }
+        }
+        // two entries sharing one offset, both orders
+        let mut i = valid.clone();
+        let off0 = u64::from_le_bytes(valid[eo + 8..eo + 16].try_into().unwrap());
+        wr64(&mut i, eo + 32 + 8, off0);
+        ops.push(format!("bpmap {} {} 4100 12290 4100", hex(text.as_bytes()), hex(&i)));
+        ops.push(format!("bpmap {} {} 12290 4100 12290", hex(text.as_bytes()), hex(&i)));
+        ops.push(format!("bpmap {} {} iter 12290 4100 8192", hex(text.as_bytes()), hex(&i)));
+        ops.push(format!("bpmap {} {} 12290 iter 4100 8192 12290", hex(text.as_bytes()), hex(&i)));
+        wr32(&mut i, eo + 32 + 4, 20);
+        ops.push(format!("bpmap {} {} 12290 4100 12290", hex(text.as_bytes()), hex(&i)));
+        ops.push(format!("bpmap {} {} 4100 12290 4100", hex(text.as_bytes()), hex(&i)));
+        chunked("entry-bounds", ops, 12, &mut out);
+    }
+    // (10) scale: production-shaped files through the 1 MiB chunk loop, size-relative CPU budget
+    // (functions, line records per function, FILE records, seed: even = blocks in descending address order)
+    let big: &[(u64, u64, u64, u64)] = if tier == Tier::Quick {
+        &[(9000, 8, 300, 1), (40000, 0, 50, 2)]
+    } else {
+        &[(9000, 8, 300, 1), (40000, 0, 50, 2), (40000, 8, 2000, 3), (100000, 10, 20000, 5), (100000, 2, 1000, 6)]
+    };
+    for (k, (f, l, n, seed)) in big.iter().enumerate() {
+        out.push(Case { name: format!("scale-{k}"), ops: vec![format!("bigsym {f} {l} {n} {seed}")] });
+    }
     out
 }
 
-pub fn generate(rng: &mut Rng, _tier: Tier, _index: u64) -> Vec<String> {
-    match rng.below(10) {
+pub fn generate(rng: &mut Rng, tier: Tier, _index: u64) -> Vec<String> {
+    match rng.below(13) {
+        10 | 11 => bpmap_op(rng, tier).into_iter().collect(),
+        12 => {
+            if rng.chance(1, 2) {
+                deep_case(rng, tier)
+            } else {
+                (0..rng.range(2, 5)).map(|_| api_op("/symbolicate/v5", &multi_job_request(rng, &[]).text())).collect()
+            }
+        }
         0..=3 => sym_case(rng),
         4 | 5 => {
             let n = rng.range(4, 12) as usize;
@@ -938,6 +1379,7 @@ pub fn generate(rng: &mut Rng, _tier: Tier, _index: u64) -> Vec<String> {
             ops.extend(path_ops(rng, 4));
             ops.extend(asmreq_ops(rng, 4));
             ops.push(format!("debugid {}", hx(&random_id(rng))));
+            ops.extend(json_text_ops(rng, 3));
             ops
         }
         7 => bp_ops(rng, 12),
